@@ -2,7 +2,7 @@ SPECIFICATION Spec
 CONSTANTS
   VisitTypes = {"random", "dataframe", "other"}
   PNs = {"pos", "one", "zero", "neg", "str", "none", "true", "float"}
-  Stds = {"ok", "neg"}
+  Stds = {"ok", "neg", "true"}
   DMeans = {"pos", "zero", "neg"}
   DStds = {"pos", "zero", "large"}
   Spacings = {"absent", "one", "tenth", "tiny", "neg", "str"}
